@@ -407,7 +407,7 @@ def check():
             else:
                 o.inconc("UNCONFIRMED: lemma(s) fail (%s) but the validator finds nothing wrong in the documents oal-cli emits for the corpus" % "; ".join(bad[:3]))
         elif probs:
-            o.inconc("translator validation failed: validator reports %s although every lemma holds" % probs[:3])
+            o.oracle_only("validator reports %s although every lemma holds" % probs[:3], rdir)
     return o.finish()
 
 
